@@ -95,7 +95,7 @@ def _sig_mem_inplace(v):
     f = v.features
     return (
         v.kind == "contents-changed-by-failed-call"
-        and f.get("fault") == "update_callable"
+        and f.get("failing_op_is_update") is True
         and f.get("storage") == "mem"
         and f.get("explained_by_in_place_mutation") is True
     )
